@@ -20,11 +20,26 @@ PagesOf(s, ord, c, limit, asc, fuel) ==
   LET r == PageImpl(s, ord, c, limit, asc)
   IN IF ~r.next.has \/ fuel = 0 THEN <<r>> ELSE <<r>> \o PagesOf(s, ord, r.next, limit, asc, fuel - 1)
 
+(* write-write-read sequences AFTER a read built the channel's sorted view (the cache must be invalidated by every write that
+   owes it, however later writes look): rescore key a, then re-publish key b unchanged, then read; and remove key rm, publish a
+   new key add, re-publish key b unchanged, then read.  The expected order is that of the resulting state. *)
+Rescored(a, sc) == [st EXCEPT ![a].sc = sc]
+Swapped(rm, add) == [k \in (DOMAIN st \ {rm}) \cup {add} |-> IF k = add THEN PEntry(add, IF cf.ord THEN st[rm].sc ELSE 0) ELSE st[k]]
+Rescores == IF ~cf.ord THEN {} ELSE
+  {[a |-> a, sc |-> sc, b |-> b, asc |-> SortedKeys(Rescored(a, sc), TRUE, TRUE), desc |-> SortedKeys(Rescored(a, sc), TRUE, FALSE)] :
+     a \in DOMAIN st, sc \in Scores, b \in DOMAIN st}
+RescoresOK == {r \in Rescores : r.sc # st[r.a].sc /\ r.b # r.a}
+SwapsAll ==
+  {[rm |-> rm, add |-> add, b |-> b, asc |-> SortedKeys(Swapped(rm, add), cf.ord, TRUE), desc |-> SortedKeys(Swapped(rm, add), cf.ord, FALSE)] :
+     rm \in DOMAIN st, add \in Keys \ DOMAIN st, b \in DOMAIN st}
+Swaps == {x \in SwapsAll : x.b # x.rm}
+
 ProbeCursors == [has : {TRUE}, sc : (IF cf.ord THEN Scores ELSE {0}), k : Keys]
 Table ==
   [walks  |-> {[limit |-> l, asc |-> a, pages |-> PagesOf(st, cf.ord, NoCur, l, a, Cardinality(DOMAIN st) + 1)] :
                  l \in PageSizes, a \in BOOLEAN},
    sorted |-> [asc |-> SortedKeys(st, cf.ord, TRUE), desc |-> SortedKeys(st, cf.ord, FALSE)],
+   rescores |-> RescoresOK, swaps |-> Swaps,
    probes |-> {[cur |-> c, asc |-> a, limit |-> 2, page |-> PageImpl(st, cf.ord, c, 2, a), ref |-> RefPage(st, cf.ord, c, 2, a)] :
                  c \in ProbeCursors, a \in BOOLEAN}]
 
